@@ -461,7 +461,7 @@ def c16_tree(prop, key, index, tier):
 
 
 # ------------------------------------------------------------------ C17
-def _check_queries(out, sched, req, members, forever, starts_list, where):
+def _check_queries(out, sched, req, members, forever, starts_list, where, exits_first=False):
     """req/members/forever are name-level truth; sched is the live object"""
     by = {j.name: j for j in sched.jobs}
     if set(by) != set(members):
@@ -471,6 +471,11 @@ def _check_queries(out, sched, req, members, forever, starts_list, where):
     succ = R.reverse(rq, members)
     up = R.closure(rq, members)
     down = R.closure(succ, members)
+    # stale reverse links only show when a query is the first one asked after
+    # an edit: alternate which family of queries goes first
+    if exits_first:
+        out.count('entry/exit asked first after an edit')
+        _check_entry_exit(out, sched, req, members, forever, succ, where)
     for starts in starts_list:
         objs = [by[s] for s in starts]
         exp = {
@@ -494,6 +499,11 @@ def _check_queries(out, sched, req, members, forever, starts_list, where):
                               % (where, meth, sorted(starts), gn, sorted(want)))
         if len(starts) > 1:
             out.count('multi-start queries')
+    if not exits_first:
+        _check_entry_exit(out, sched, req, members, forever, succ, where)
+
+
+def _check_entry_exit(out, sched, req, members, forever, succ, where):
     out.count('entry/exit queries compared')
     ent = sorted(j.name for j in sched.entry_jobs())
     # "the members that require nothing": literally nothing, so a member left
@@ -636,7 +646,8 @@ def c17_exhaustive(prop, key, index, tier):
                 out.count('edits applied before re-asking')
                 fv = {a for a in forever if a in mem2}
                 sl = [s for s in R.subsets_upto(sorted(mem2), 2) if s]
-                _check_queries(out, sched, req2, mem2, fv, sl, "%s after %s" % (where, log))
+                _check_queries(out, sched, req2, mem2, fv, sl, "%s after %s" % (where, log),
+                               exits_first=len(log) % 2 == 1)
     out.nontrivial = n >= 3
     return finish(prop, out, key, index, tier, 'c17_exhaustive', (n, bits),
                   dict(requires={k: sorted(v) for k, v in req.items()}, forever=sorted(forever)))
@@ -669,7 +680,8 @@ def c17_random(prop, key, index, tier):
             fv = {a for a in forever if a in members}
             mem = sorted(members)
             sl = [{a} for a in mem] + [set(rng.sample(mem, min(len(mem), rng.randint(2, 3)))) for _ in range(4)]
-            _check_queries(out, sched, req, members, fv, sl, "%s after %s" % (where, log))
+            _check_queries(out, sched, req, members, fv, sl, "%s after %s" % (where, log),
+                           exits_first=len(log) % 2 == 1)
     out.nontrivial = True
     return finish(prop, out, key, index, tier, 'c17_random', (key,),
                   dict(requires={k: sorted(v) for k, v in req.items()}, edits=log))
